@@ -304,7 +304,10 @@ def stores_of(clsname, f, sc):
             targets = n.targets
         elif isinstance(n, ast.AugAssign):
             targets = [n.target]
+        flat = []
         for t in targets:
+            flat.extend(t.elts if isinstance(t, (ast.Tuple, ast.List)) else [t])       # `a[i], b[j] = x, y` stores twice
+        for t in flat:
             if isinstance(t, (ast.Subscript, ast.Attribute)):
                 stores.append((clsname, f.name, ast.unparse(n)[:120], store_target_class(t, sc)))
         if isinstance(n, ast.AugAssign) and isinstance(n.target, ast.Name):
